@@ -10,38 +10,48 @@
 (*              start in index order), but every context - the creating one   *)
 (*              included - closes at any moment, also in the middle of        *)
 (*              another worker's start-up or page work;                      *)
+(*   "prov":    databases of other provenance (backup written by backup_db,  *)
+(*              rollback-journal files; single long-lived reader): scenarios  *)
+(*              with a cursor as in "work", the others as in "startup";      *)
 (*   "all":     no restriction (used with -simulate).                        *)
 (* In "startup" and "work" the contexts are closed at the end, in order.     *)
 EXTENDS MC_Workers, Json
 
 CONSTANT Focus
-VARIABLE sched
-gvars == <<scn, pmain, pbak, ino, wlock, pc, conn, snap, saw, res, chk, raced, snapfail, opn, life, sched>>
+VARIABLES sched,
+          meet    \* history: a worker committed while ANOTHER worker's cursor was open on the same database
+                  \* (the reader/writer meeting that only a WAL database lets pass); a class label for sampling
+gvars == <<scn, pmain, pbak, ino, wlock, pc, conn, snap, saw, res, chk, raced, snapfail, opn, life, sched, meet>>
 
 StartupLabels == {"exists", "unlink", "rename", "connect", "script"}
 InStartup(p) == pc[p] \in StartupLabels
 WorkDone == \A q \in Procs : Finished(q)
 CloseLast(p) == WorkDone /\ \A q \in PAll : (q < p) => Ended(q)
 MidRun(q) == ~Finished(q) /\ pc[q] # "exists"
+AllowedStartup(p) ==
+  IF Finished(p) THEN CloseLast(p)
+  ELSE IF InStartup(p) THEN TRUE
+  ELSE /\ \A q \in Procs : ~InStartup(q)
+       /\ \A q \in Procs : (q < p) => Finished(q)
+AllowedWork(p) ==
+  IF Finished(p) THEN CloseLast(p)
+  ELSE IF InStartup(p) THEN \A q \in Procs : (q < p) => ~InStartup(q)
+  ELSE \A q \in Procs : ~InStartup(q)
 Allowed(p) ==
-  CASE Focus = "startup" ->
-         IF Finished(p) THEN CloseLast(p)
-         ELSE IF InStartup(p) THEN TRUE
-         ELSE /\ \A q \in Procs : ~InStartup(q)
-              /\ \A q \in Procs : (q < p) => Finished(q)
-    [] Focus = "work" ->
-         IF Finished(p) THEN CloseLast(p)
-         ELSE IF InStartup(p) THEN \A q \in Procs : (q < p) => ~InStartup(q)
-         ELSE \A q \in Procs : ~InStartup(q)
+  CASE Focus = "startup" -> AllowedStartup(p)
+    [] Focus = "work" -> AllowedWork(p)
     [] Focus = "life" ->
          IF Finished(p) THEN TRUE
          ELSE /\ \A q \in Procs \ {p} : ~MidRun(q)
               /\ pc[p] = "exists" => \A q \in Procs : (q < p) => pc[q] # "exists"
+    \* provenance families: scenarios with a cursor as in "work", those without as in "startup"
+    [] Focus = "prov" -> IF scn.cursor THEN AllowedWork(p) ELSE AllowedStartup(p)
     [] OTHER -> TRUE
 
-GInit == Init /\ sched = <<>>
+GInit == Init /\ sched = <<>> /\ meet = FALSE
 GNext == \/ \E p \in PAll : Allowed(p) /\ Step(p)
                            /\ sched' = Append(sched, [p |-> p, l |-> IF Finished(p) THEN "close" ELSE pc[p]])
+                           /\ meet' = (meet \/ (pc[p] = "commit" /\ Readers(conn[p], p) # {}))
          \/ AllDone /\ UNCHANGED gvars
 GSpec == GInit /\ [][GNext]_gvars
 
@@ -51,6 +61,8 @@ Emit ==
     PrintT(<<"CASE", ToJson([scn |-> scn, sched |-> sched,
                              res |-> [i \in 1..Cardinality(Procs) |-> res[i]],
                              store |-> (pmain # 0 /\ ino[pmain].c \ {"boot"} = {Exp}),
-                             raced |-> raced, snapfail |-> snapfail, life |-> life])>>)
+                             raced |-> raced, snapfail |-> snapfail, life |-> life,
+                             meet |-> meet,
+                             jm |-> IF pmain # 0 THEN ino[pmain].jm ELSE "none"])>>)
 GenInv == Emit
 =============================================================================
